@@ -1,6 +1,7 @@
 package harness
 
 import (
+	"unsafe"
 	"encoding/binary"
 	"fmt"
 	"os"
@@ -163,4 +164,14 @@ func (b *GuardBatch) Seal() {
 	if err := syscall.Mprotect(b.g.mem, syscall.PROT_READ); err != nil {
 		panic(err)
 	}
+}
+
+// Overlaps reports whether the backing arrays of a and b (up to their capacities) share memory.
+func Overlaps(a, b []byte) bool {
+	if cap(a) == 0 || cap(b) == 0 {
+		return false
+	}
+	a, b = a[:cap(a)], b[:cap(b)]
+	pa, pb := uintptr(unsafe.Pointer(&a[0])), uintptr(unsafe.Pointer(&b[0]))
+	return pa < pb+uintptr(len(b)) && pb < pa+uintptr(len(a))
 }
